@@ -108,13 +108,23 @@ def f_ctor_diag : Family :=
 def f_conv : Family :=
   { name := "conv", kind := .syn, keys := shapes4, nOut := fun k => k0 k * k1 k, spec := fun k => conv (k0 k) (k1 k) (k2 k) (k3 k) }
 
+/-- gtx `diagonalCxR(v)`: `v` on the diagonal, zero elsewhere (`v` has `min C R` components) -/
+def f_gdiag : Family :=
+  { name := "gdiag", kind := .syn, keys := shapes, nOut := fun k => k0 k * k1 k, spec := fun k j => if j / k1 k = j % k1 k then v (j / k1 k) else zero }
+/-- gtx `rowMajorN`: the arguments are the ROWS (from vectors), or the matrix is transposed (from a matrix); `colMajorN`: the arguments are the columns / the same matrix -/
+def sqs : List (List Nat) := [[2],[3],[4]]
+def f_rowmajor_m : Family := { name := "rowmajor_m", kind := .syn, keys := sqs, nOut := fun k => k0 k * k0 k, spec := fun k j => v ((j % k0 k) * k0 k + j / k0 k) }
+def f_colmajor_m : Family := { name := "colmajor_m", kind := .syn, keys := sqs, nOut := fun k => k0 k * k0 k, spec := fun _ j => v j }
+def f_rowmajor_v : Family := { name := "rowmajor_v", kind := .syn, keys := sqs, nOut := fun k => k0 k * k0 k, spec := fun k j => v ((j % k0 k) * k0 k + j / k0 k) }
+def f_colmajor_v : Family := { name := "colmajor_v", kind := .syn, keys := sqs, nOut := fun k => k0 k * k0 k, spec := fun _ j => v j }
+
 /-- integer matrices (traced at symbolic int32): the same definitions, reached through ext/matrix_integer.inl's dispatcher -/
 def f_itranspose : Family := { f_transpose with name := "itranspose", unit := "itranspose" }
 def f_iouter : Family := { f_outer with name := "iouter", unit := "iouter" }
 def f_icompmult : Family := { f_compmult with name := "icompmult", unit := "icompmult" }
 def f_imulmv : Family := { f_mulmv with name := "imulmv", unit := "imulmv" }
 
-def families : List Family := [f_mul, f_asgmul_m, f_mulmv, f_mulvm, f_transpose, f_outer, f_compmult, f_addmm, f_submm, f_addms, f_addsm, f_subms, f_subsm, f_mulms, f_mulsm, f_divms, f_divsm, f_negm, f_posm, f_preinc, f_predec, f_postinc, f_postdec, f_asgadd_m, f_asgsub_m, f_asgadd_s, f_asgsub_s, f_asgmul_s, f_asgdiv_s, f_asg_m, f_row_get, f_row_set, f_col_get, f_col_set, f_ctor_diag, f_conv, f_itranspose, f_iouter, f_icompmult, f_imulmv]
+def families : List Family := [f_mul, f_asgmul_m, f_mulmv, f_mulvm, f_transpose, f_outer, f_compmult, f_addmm, f_submm, f_addms, f_addsm, f_subms, f_subsm, f_mulms, f_mulsm, f_divms, f_divsm, f_negm, f_posm, f_preinc, f_predec, f_postinc, f_postdec, f_asgadd_m, f_asgsub_m, f_asgadd_s, f_asgsub_s, f_asgmul_s, f_asgdiv_s, f_asg_m, f_row_get, f_row_set, f_col_get, f_col_set, f_ctor_diag, f_conv, f_itranspose, f_iouter, f_icompmult, f_imulmv, f_gdiag, f_rowmajor_m, f_colmajor_m, f_rowmajor_v, f_colmajor_v]
 
 def fam (n : String) : Family := findFam families n
 
